@@ -793,7 +793,7 @@ fn param_faults(ctx: &Ctx, plan: &mut CallPlan, ep: &EpMeta, wire: &mut WireReq,
 
 /// query keys as the real client writes them (keys in sim-ir are unreserved apart from '-')
 fn pct_key(k: &str) -> String {
-    k.to_string()
+    pct(k)
 }
 
 const JSON_CT: &[u8] = b"application/json";
@@ -1067,6 +1067,17 @@ pub fn apply_response_faults(
                         ctx.count("probe.unknown_field_spliced");
                         // clients ignore unknown fields
                         fire(ctx, plan, &mut fired, FK::UnknownField, name, Expect::Transparent);
+                    }
+                }
+            }
+        }
+        if want(plan, FK::TypeConfusion) {
+            if let Ok(mut v) = serde_json::from_slice::<Value>(&bytes) {
+                if serde_json::to_vec(&v).ok().as_deref() == Some(&bytes[..]) {
+                    let text = format!("tc{}", &plan.alpha);
+                    if ctx.with_tape(|t| confuse_json(t, &mut v, &text)) {
+                        bytes = serde_json::to_vec(&v).unwrap();
+                        fire(ctx, plan, &mut fired, FK::TypeConfusion, text, Expect::Judge);
                     }
                 }
             }
